@@ -172,8 +172,10 @@ RotAtF(g, f, a) ==
     [] g.cls = "par3deu"              -> Euler(AngCS(a[1]), AngCS(a[2]), AngCS(a[3]))
 
 \* detector normal: 2d (normal, tangent) right-handed; 3d (t1, t2, normal) right-handed
+\* UNIT normal; the two axes of a 2-d detector need only be linearly independent (sheared and left-handed
+\* frames are legal), so the cross product of the unit tangents is normalised (|t1 x t2| rational in scenarios)
 Normal(axes) == IF Len(axes) = 1 THEN << axes[1][2], QNeg(axes[1][1]) >>
-                ELSE GCross(axes[1], axes[2])
+                ELSE LET c == GCross(axes[1], axes[2]) IN IF GNorm2(c) = QOne THEN c ELSE GUnit(c)
 
 \* intrinsic detector surface point for parameter u (sequence of params)
 Surface(det, axes, u) ==
